@@ -3,7 +3,7 @@
 copies the confirmed seeded change from /tmp/seed/Cxx.out/x to /verif/seeded/Cxx-x/ with meta.json"""
 import sys, os, shutil, json, glob
 pid, x, needs, result = sys.argv[1:5]
-src = "/tmp/seed/%s.out%s/%s" % (pid, "2" if x in ("c", "d") else "", x)
+src = "/tmp/seed/%s.out%s/%s" % (pid, "3" if x in ("e", "f") else ("2" if x in ("c", "d") else ""), x)
 dst = "/verif/seeded/%s-%s" % (pid, x)
 shutil.rmtree(dst, ignore_errors=True)
 os.makedirs(dst)
